@@ -227,6 +227,13 @@ pub fn c09(progs: &[Prog], decls: &Decls, max_tokens: usize) -> EnumOutcome {
                     tokens.extend(combo);
                     check_case(prog, decls, &base, &tokens, &mut o);
                 }
+                // complete lines of commands with three or more fields: every subset and order of their arguments
+                for l in &cmd.long_lines {
+                    let mut tokens = vec![cmd.name.clone()];
+                    tokens.extend(l.iter().cloned());
+                    o.stats.hit("long_lines");
+                    check_case(prog, decls, &base, &tokens, &mut o);
+                }
             }
             for t in [vec!["nosuch".to_string()], vec!["nosuch".to_string(), "x".to_string()], vec!["".to_string()]] {
                 check_case(prog, decls, &base, &t, &mut o);
